@@ -306,10 +306,13 @@ func (m *Mux) Close() error {
 	// registered under the same lock, so no writer can be added after this
 	// point.
 	close(m.done)
-	m.ctxCancelFunc()
+	// Close the underlays before cancelling the context: a cancelled packet
+	// underlay event loop closes its socket, and the close session requests
+	// of the sessions that are being closed could no longer reach the peers.
 	for _, underlay := range m.underlays {
 		underlay.Close()
 	}
+	m.ctxCancelFunc()
 	m.underlays = make([]Underlay, 0)
 	m.mu.Unlock()
 
